@@ -155,6 +155,94 @@ func nilErrEdgesOf(fn *ssa.Function, w *ssa.Call) [][2]*ssa.BasicBlock {
 	return out
 }
 
+// successEdgesIn returns the edges of top on which call w is known to have succeeded: the nil-error
+// edges of w itself when it is made in top; when it is made in a helper of top, the edges of top on
+// which the helper reported that success — the nil edges of the helper's own error result when that
+// is w's error, or the edges of a branch on the helper's bool result when every return of the helper
+// hands back `err == nil` / `err != nil` of w's error.
+func successEdgesIn(top *ssa.Function, w *ssa.Call) [][2]*ssa.BasicBlock {
+	h := w.Parent()
+	if h == top {
+		return nilErrEdgesOf(top, w)
+	}
+	var out [][2]*ssa.BasicBlock
+	res := h.Signature.Results()
+	if res.Len() == 0 {
+		return nil
+	}
+	last := res.Len() - 1
+	fromW := func(v ssa.Value) bool {
+		for _, oc := range originCalls(v) {
+			if oc == w {
+				return true
+			}
+		}
+		return false
+	}
+	var sites []*ssa.Call
+	core.Calls(top, func(c ssa.CallInstruction) {
+		if call, ok := c.(*ssa.Call); ok && core.CalleeFn(c) == h {
+			sites = append(sites, call)
+		}
+	})
+	switch {
+	case isErr(res.At(last).Type()):
+		okAll := true
+		for _, ret := range core.Returns(h) {
+			v := core.ReturnOperand(ret, last)
+			if core.IsNilConst(v) || fromW(v) || failureReturn(h, ret) {
+				continue
+			}
+			okAll = false
+		}
+		if !okAll {
+			return nil
+		}
+		for _, cs := range sites {
+			out = append(out, nilErrEdgesOf(top, cs)...)
+		}
+	case types.Identical(res.At(last).Type(), types.Typ[types.Bool]):
+		truth, set := false, false
+		for _, ret := range core.Returns(h) {
+			v, pol := core.StripNot(core.ReturnOperand(ret, last), true)
+			x, neq, isCmp := errCmpNil(v)
+			if !isCmp || !fromW(x) {
+				return nil
+			}
+			t := (!neq) == pol // the returned value is true when the error is nil
+			if set && t != truth {
+				return nil
+			}
+			truth, set = t, true
+		}
+		if !set {
+			return nil
+		}
+		for _, cs := range sites {
+			for _, b := range top.Blocks {
+				ifi, ok := core.LastInstr(b).(*ssa.If)
+				if !ok {
+					continue
+				}
+				c, pol := core.StripNot(ifi.Cond, true)
+				if ex, isEx := c.(*ssa.Extract); isEx && ex.Index == last {
+					c = ex.Tuple
+				}
+				if c != ssa.Value(cs) {
+					continue
+				}
+				// the condition (after stripping negations) is true on Succs[0] iff pol
+				if truth == pol {
+					out = append(out, [2]*ssa.BasicBlock{b, b.Succs[0]})
+				} else {
+					out = append(out, [2]*ssa.BasicBlock{b, b.Succs[1]})
+				}
+			}
+		}
+	}
+	return out
+}
+
 func c14R1(p *core.Prog, r *core.Report) {
 	const rule = "C14.R1"
 	r.Rule(rule, "transfer is the last resort: the source read in BlobCopy is behind the same-repository test, the target HEAD and (same registry) the mount attempt; the registry scheme's mount always sends its request", 6)
@@ -170,7 +258,7 @@ func c14R1(p *core.Prog, r *core.Report) {
 		var out []*ssa.Call
 		for _, f := range sortedFuncs(scope) {
 			core.Calls(f, func(c ssa.CallInstruction) {
-				if cal := core.Callee(c); cal != nil && core.IsModMethod(cal, ".", "RegClient", m) {
+				if cal := core.Callee(c); cal != nil && core.IsClientOp(cal, m) {
 					if call, ok := c.(*ssa.Call); ok {
 						out = append(out, call)
 					}
@@ -200,12 +288,12 @@ func c14R1(p *core.Prog, r *core.Report) {
 		r.Check(len(er) > 0 && !reached(er), rule, name, "same repository moves nothing", pos, "the source read must be unreachable from the true edge of ref.EqualRepository(src, tgt)")
 		var headOK [][2]*ssa.BasicBlock
 		for _, h := range heads {
-			headOK = append(headOK, nilErrEdgesOf(bc, h)...)
+			headOK = append(headOK, successEdgesIn(bc, h)...)
 		}
 		r.Check(len(headOK) > 0 && !reached(headOK), rule, name, "existing blob is not fetched", pos, "the source read must be unreachable from the edge on which the HEAD of the target succeeded")
 		var mountOK [][2]*ssa.BasicBlock
 		for _, m := range mounts {
-			mountOK = append(mountOK, nilErrEdgesOf(bc, m)...)
+			mountOK = append(mountOK, successEdgesIn(bc, m)...)
 		}
 		r.Check(len(mountOK) > 0 && !reached(mountOK), rule, name, "mounted blob is not fetched", pos, "the source read must be unreachable from the edge on which the server-side mount succeeded")
 		// must pass the HEAD
@@ -305,11 +393,16 @@ func c14R2(p *core.Prog, r *core.Report) {
 		return cal != nil && core.IsModMethod(cal, "types/ref", "Ref", "CommonName")
 	}
 	const badKey = "the repository part of the key is not CommonName() of the target ref with tag and digest cleared by SetTag(\"\"): a key that keeps the digest of the referencing manifest makes every platform copy its own copy of a shared layer"
+	// the store may sit in a helper of the gate (claim / wait split): its key is followed back into
+	// the gate through the helper's parameters
+	gateUnit := core.Helpers(sow, 2)
 	var keyLeaves []ssa.Value
-	for _, blk := range sow.Blocks {
-		for _, in := range blk.Instrs {
-			if mu, ok := in.(*ssa.MapUpdate); ok && isStringType(mu.Key.Type()) {
-				keyLeaves = append(keyLeaves, pathLeaves(mu.Key)...)
+	for _, gf := range sortedFuncs(gateUnit) {
+		for _, blk := range gf.Blocks {
+			for _, in := range blk.Instrs {
+				if mu, ok := in.(*ssa.MapUpdate); ok && isStringType(mu.Key.Type()) {
+					keyLeaves = append(keyLeaves, pathLeaves(mu.Key)...)
+				}
 			}
 		}
 	}
@@ -318,8 +411,23 @@ func c14R2(p *core.Prog, r *core.Report) {
 	}
 	inGate := false
 	var repoParams []int
+	var leaves2 []ssa.Value
 	for _, l := range keyLeaves {
-		for _, o := range core.Origins(l, core.SliceOpts{}) {
+		// a leaf that is a helper's parameter: the leaves of what the gate passes there
+		expanded := false
+		for _, o := range core.Origins(l, core.SliceOpts{Helpers: gateUnit}) {
+			if o.Val != nil && o.Val != l && o.Val.Parent() == sow && isStringType(o.Val.Type()) {
+				leaves2 = append(leaves2, pathLeaves(o.Val)...)
+				expanded = true
+			}
+		}
+		if !expanded {
+			leaves2 = append(leaves2, l)
+		}
+	}
+	keyLeaves = leaves2
+	for _, l := range keyLeaves {
+		for _, o := range core.Origins(l, core.SliceOpts{Helpers: gateUnit}) {
 			switch o.Kind {
 			case core.OCall:
 				if isCommonName(o.Call) {
